@@ -55,7 +55,8 @@ McValid(rec) == rec # <<>> /\ rec[1] = A /\ ~Has(rec, X)
 \* refinement: every implemented step is one the property allows
 StepAllowed == okstep
 \* the collected entries are always the well-formed prefix of the stream's records
-PrefixOK == LET all == SplitSep(stream)[1] IN Len(ents) <= Len(all) /\ ents = SubSeq(all, 1, Len(ents))
+PrefixOK == LET all == SplitSep(stream)[1] IN /\ Len(ents) <= Len(all) /\ ents = SubSeq(all, 1, Len(ents))
+                                              /\ SplitSep(stream) = SplitSepRef(stream)      \* fold = recursion
 FinalInv == phase = "done" => FinalOK(stream, Len(ents), failed)
 \* on a well-formed complete stream nothing is left in the buffer at the end
 Drained == (phase = "done" /\ ~failed /\ FirstBad(SplitSep(stream)[1]) = 0 /\ SplitSep(stream)[2] = <<>>) => buf = <<>>
